@@ -141,7 +141,7 @@ def _build(ch):
         present = ch.pick(f"op{i}", ["plain", "absent"] if i == 2 else ["plain"])
         if present == "absent":
             continue
-        resp = ch.pick(f"op{i}.responses", ["200-ref", "200+404", "200-unsupported-media", "200-broken-schema", "default-only", "2XX", "bad-code", "none-documented-201"])
+        resp = ch.pick(f"op{i}.responses", ["200-ref", "200+404", "200-unsupported-media", "200-broken-schema", "default-only", "2XX", "bad-code", "none-documented-201", "200-ref+204+404-empty"])
         body = ch.pick(f"op{i}.body", ["none", "json-ref", "json+xml", "xml-only", "broken-schema", "json+form", "ref-dangling"])
         param = ch.pick(f"op{i}.param", ["none", "optional-path", "dangling-ref-param", "duplicate", "no-schema"])
         target = names[i]
@@ -151,6 +151,10 @@ def _build(ch):
         elif resp == "200+404":
             r["200"] = {"description": "d", "content": {"application/json": {"schema": ref(target)}}}
             r["404"] = {"description": "d", "content": {"application/json": {"schema": {"type": "string"}}}}
+        elif resp == "200-ref+204+404-empty":      # a typed response next to documented statuses that carry no content
+            r["200"] = {"description": "d", "content": {"application/json": {"schema": ref(target)}}}
+            r["204"] = {"description": "nothing"}
+            r["404"] = {"description": "not found"}
         elif resp == "200-unsupported-media":
             r["200"] = {"description": "d", "content": {"application/xml": {"schema": ref(target)}}}
             r["204"] = {"description": "d"}
@@ -216,6 +220,18 @@ def _media_sets():
             body = {"required": True, "content": {m: {"schema": sch(m, i)} for i, m in enumerate(medias)}}
             doc = gen.base_doc(dict(comps), paths={"/b": {"post": _op("sendBody", None, "/b", body=body)}})
             yield {"labels": [f"media{i}={m}" for i, m in enumerate(medias)], "payload": {"doc": doc, "key": f"media-set{k}"}}
+    # a documented request body on every HTTP method
+    for method in ("get", "put", "post", "delete", "options", "head", "patch", "trace"):
+        for medias in (("application/json",), ("application/json", "application/x-www-form-urlencoded"), ("application/xml",), ("multipart/form-data",)):
+            for by_ref in (False, True):
+                body = {"required": True, "content": {m: {"schema": sch(m, i)} for i, m in enumerate(medias)}}
+                extra = {}
+                if by_ref:
+                    extra = {"components": {"requestBodies": {"TheBody": body}}}
+                    body = {"$ref": "#/components/requestBodies/TheBody"}
+                doc = gen.base_doc(dict(comps), paths={"/b": {method: _op("sendBody", None, "/b", body=body)}}, **extra)
+                yield {"labels": [f"method={method}"] + [f"media{i}={m}" for i, m in enumerate(medias)] + (["body-by-ref"] if by_ref else []),
+                       "payload": {"doc": doc, "key": f"body-on-{method}"}}
 
 
 SHARED_PARAMS = {
@@ -358,7 +374,7 @@ def run_case(p):
     pkg = res.pkg_tree()
     diag = res.diag_text()
     # ---- operations
-    doc_ops = [(m.upper(), path, op) for path, item in doc.get("paths", {}).items() for m, op in item.items() if m in ("get", "post", "put", "delete", "patch")]
+    doc_ops = [(m.upper(), path, op) for path, item in doc.get("paths", {}).items() for m, op in item.items() if m in ("get", "post", "put", "delete", "patch", "options", "head", "trace")]
     on_disk = sorted(k for k in pkg if k.startswith("api/") and k.count("/") == 2 and not k.endswith("__init__.py"))
     served = {}      # (method, path) -> set of module files
     steps = 1
@@ -485,6 +501,8 @@ def run_case(p):
                 viol.append({"oracle": "census-response", "site": "api", "key": f"{key}/status-{'numeric' if str(code).isdigit() else code}",
                              "detail": f"{m} {path}: documented status {code!r} is neither handled nor named in a warning"})
         body = op.get("requestBody") or {}
+        if "$ref" in body:
+            body = (doc.get("components", {}).get("requestBodies") or {}).get(body["$ref"].split("/")[-1]) or {}
         ep = next((e for e in res.endpoints if f"api/{e['tag']}/{e['module']}.py" in files), None)
         for media in (body.get("content") or {}):
             handled = ep is not None and any(b["content_type"] == media for b in ep["bodies"])
